@@ -60,8 +60,12 @@ added so that the retry budget can be spent inside the depth bound; (5) retransm
 """
 from __future__ import annotations
 
+import asyncio
+import copy
 import dataclasses
+import os
 import struct
+from collections import deque
 from collections import Counter
 from typing import Any, Dict, List, Optional, Tuple
 
@@ -185,6 +189,15 @@ class Endpoint:
         if wire not in self.pending:
             self.pending.append(wire)
 
+    def clone(self) -> "Endpoint":
+        n = Endpoint()
+        n.next_id = self.next_id
+        n.sent = {k: list(v) for k, v in self.sent.items()}
+        n.own_unacked = list(self.own_unacked)
+        n.pending = list(self.pending)
+        n.rmap = dict(self.rmap)
+        return n
+
     def canon(self):
         return (self.next_id, tuple(sorted((k, tuple(v)) for k, v in self.sent.items())), tuple(self.own_unacked),
                 tuple(self.pending), tuple(sorted(self.rmap.items())))
@@ -198,13 +211,94 @@ class Inj:
                 self.elapsed)
 
 
+_LOOP: Optional[VL] = None
+_LOOP_PID = -1
+_DESER = None
+
+
+def _process_loop() -> VL:
+    """One virtual loop per process, shared by every world (worlds own their time: each step sets the clock first).
+    A world never schedules callbacks or timers on it (deep seam: futures without waiters), so sharing is safe."""
+    global _LOOP, _LOOP_PID, _DESER
+    if _LOOP is None or _LOOP_PID != os.getpid():
+        _LOOP = VL()
+        vloop.install(_LOOP, clock_modules=[circuit_mod])
+        _LOOP_PID = os.getpid()
+        _DESER = UDPMessageDeserializer(settings=Settings())   # strong ref: Message.deserializer is a weakref
+    return _LOOP
+
+
+_ATOMS = (int, float, str, bytes, bool, type(None), tuple, Direction)
+
+
+def _clone_value(v, memo):
+    if isinstance(v, _ATOMS) or callable(v):
+        return v
+    if isinstance(v, deque):
+        return deque(v, v.maxlen)
+    return copy.deepcopy(v, memo)
+
+
+def _clone_future(f: asyncio.Future, futs: Dict[int, asyncio.Future]) -> asyncio.Future:
+    n = futs.get(id(f))
+    if n is None:
+        n = _LOOP.create_future()
+        if f.cancelled():
+            n.cancel()
+        elif f.done():
+            if f.exception() is not None:
+                n.set_exception(f.exception())
+                n.exception()
+            else:
+                n.set_result(f.result())
+        futs[id(f)] = n
+    return n
+
+
+def _clone_plain(obj, memo):
+    n = object.__new__(type(obj))
+    n.__dict__.update({k: _clone_value(v, memo) for k, v in obj.__dict__.items()})
+    return n
+
+
+def _clone_circuit(c: ProxiedCircuit, tr, futs, memo) -> ProxiedCircuit:
+    """Field-by-field copy of the live circuit (generic over its attributes; futures re-created in the same state,
+    stored messages shallow-copied).  Validated continuously: bfs re-derives a fraction of the states by full replay and
+    compares canon()."""
+    n = object.__new__(type(c))
+    for k, v in c.__dict__.items():
+        if k == "transport":
+            n.transport = tr
+        elif k == "serializer":
+            n.serializer = v                       # stateless
+        elif k == "unacked_reliable":
+            d = {}
+            for key, info in v.items():
+                i2 = object.__new__(type(info))
+                for fk, fv in info.__dict__.items():
+                    if isinstance(fv, asyncio.Future):
+                        fv = _clone_future(fv, futs)
+                    elif isinstance(fv, Message):
+                        fv = copy.copy(fv)
+                    else:
+                        fv = _clone_value(fv, memo)
+                    i2.__dict__[fk] = fv
+                d[key] = i2
+            n.unacked_reliable = d
+        elif k in ("in_injections", "out_injections"):
+            setattr(n, k, _clone_plain(v, memo))
+        else:
+            setattr(n, k, _clone_value(v, memo))
+    return n
+
+
 class World:
     def __init__(self):
-        self.loop = VL()
-        self.ctx = vloop.install(self.loop, clock_modules=[circuit_mod])
+        self.loop = _process_loop()
+        self.loop.set_time(0.0)
         self.tr = CapTransport()
         self.circuit = ProxiedCircuit(NEAR, FAR, self.tr)
-        self.deser = UDPMessageDeserializer(settings=Settings())   # strong ref: Message.deserializer is a weakref
+        self.deser = _DESER
         self.interval = int(round(self.circuit.resend_every * 10))  # in polls of 0.1 s
         self.budget = _budget()
         self.now = 0                                                # virtual time in 0.1 s units
@@ -212,11 +306,31 @@ class World:
         self.inj: Dict[Tuple[str, int], Inj] = {}                   # (direction, wire id) -> Inj, creation order
         self.inj_by_tag: Dict[int, Inj] = {}
         self.ninj = {"O": 0, "I": 0}
+        self.any_reliable = False                                   # some reliable packet passed through the circuit
         self.violations: List[Dict[str, Any]] = []
         self.last_out: Tuple = ()
         self.flags: Tuple = ()
         self.dead = False
         self.coll = 0
+
+    def __deepcopy__(self, memo):
+        n = object.__new__(World)
+        futs: Dict[int, asyncio.Future] = {}
+        n.loop, n.deser, n.interval, n.budget, n.now = self.loop, self.deser, self.interval, self.budget, self.now
+        n.tr = CapTransport()
+        n.circuit = _clone_circuit(self.circuit, n.tr, futs, memo)
+        n.ep = {d: e.clone() for d, e in self.ep.items()}
+        n.inj, n.inj_by_tag = {}, {}
+        for key, i in self.inj.items():
+            j = Inj()
+            j.d, j.wire, j.rel, j.tag, j.state, j.last, j.elapsed = i.d, i.wire, i.rel, i.tag, i.state, i.last, i.elapsed
+            j.future = _clone_future(i.future, futs) if i.future is not None else None
+            n.inj[key] = j
+            n.inj_by_tag[j.tag] = j
+        n.ninj = dict(self.ninj)
+        n.any_reliable = self.any_reliable
+        n.violations, n.last_out, n.flags, n.dead, n.coll = [], self.last_out, self.flags, self.dead, self.coll
+        return n
 
     def bad(self, clause, site, detail):
         self.violations.append({"clause": clause, "site": site, "detail": detail})
@@ -233,7 +347,7 @@ class World:
 
 
 class Harness:
-    copyable = False
+    copyable = True     # World.__deepcopy__ is a hand-written clone of the live circuit (see _clone_circuit)
 
     # --- construction --------------------------------------------------------------------------------------------
     def fresh(self) -> World:
